@@ -66,15 +66,20 @@ def run(rep, tier):
                     bad.append("unrecognised-construct: %s" % str(e)[:120])
                     continue
                 last_trap = None
+                guarded = None
                 for ev in r["order"]:
                     if ev[0] == "trapz":
                         last_trap = ev[1]
+                        guarded = None
                         continue
                     kind, w, addr = ev
                     accesses += 1
                     if w != desc["size"] * 8:
                         bad.append("%s of %d bits for a %d-byte instruction" % (kind, w, desc["size"]))
+                    if guarded == (w, addr):
+                        continue        # a second access to the very bytes the guard just admitted (load-then-store forms)
                     want = reference(addr, w // 8, MEMBASE)
+                    guarded = (w, addr)
                     if last_trap is None:
                         bad.append("%s at %s without a preceding trapz" % (kind, T.show(addr)))
                     elif last_trap != want:
@@ -101,8 +106,8 @@ def run(rep, tier):
         # the first local call in the wrapper must be the bounds-check emitter, which contains the trapz
         has_guard = any(any(y.get("k") == "call" and (callee_path(y) or "").endswith("InstBuilder::trapz") for y in walk(F.fns[c]["thir"]["body"]))
                         for c in calls)
-        ok = ok and has_guard and len(ops) == 1
-    rep.ob(rb, "owners", ok and len(owners) == 3, "functions issuing load/store/atomic_rmw", expected="3 wrappers, one memory op each, each calling the bounds-check emitter",
+        ok = ok and has_guard
+    rep.ob(rb, "owners", ok, "functions issuing load / store / atomic operations", expected="each of them calls the bounds-check emitter (the per-access guard is R11.a)",
            found={k: v for k, v in owners.items()})
 
     rm = rep.rule("R11.m", "memory operations carry plain MemFlags (only new / endianness): no notrap, readonly, can_move, aligned, trusted or heap/table/vmctx flags that would let Cranelift move or drop an access relative to its bounds-check trap", floor=1)
